@@ -79,8 +79,11 @@ def analyse(case, res):
             d1 = reftime.parse_interval(m.group(1)) if m else None
             d2 = reftime.parse_interval(m.group(2)) if m else None
             groups = harness.sim_groups(scn)
-            if (d1 and d2 and reftime.ref_rel(d1, d2) is None
-                    and reftime.incomparable_paths(scn, groups, want=(d1, d2))):
+            # (if the two delays cannot be read from the message - other wording - any pair of walks with
+            # genuinely incomparable delays between one pair of simulators identifies the finding)
+            if ((d1 and d2 and reftime.ref_rel(d1, d2) is None
+                 and reftime.incomparable_paths(scn, groups, want=(d1, d2)))
+                    or (not (d1 and d2) and reftime.incomparable_paths(scn, groups))):
                 ec += "|two_paths_genuinely_incomparable"
             else:
                 ec += "|not_confirmed_by_reference"
